@@ -160,6 +160,7 @@ REVERTS: list[tuple[str, str, list[str]]] = [
     ("revert-F24", "fix: allow bit fields of the same type behind a dynamically sized field", ["C04.R12", "C06.R8"]),
     ("revert-F25", "fix: remember the storage type of every compiled bit field unit", ["C06.R1", "C03.R9"]),
     ("revert-F26", "fix: keep rejecting bit field values that overflow a signed storage unit", ["C06.R5", "C01.R6"]),
+    ("revert-F27", "fix: do not pad in front of an enum bit field that continues a storage unit", ["C02.R9", "C01.R16", "C04.R13"]),
 ]
 
 # behaviour-preserving textual twins (id, file, old, new)
